@@ -65,6 +65,11 @@ var plainNames = []string{"a", "b", "c", "d", "e", "f", "dir", "src", "lib", "x.
 var hostileNames = []string{"a b", " lead", "trail ", "q\"uote", "it's", "back\\slash", "co:lon", "[1]", "[2] x", "tab\there", "new\nline", "cr\rx", "\x01ctl", "\x7f", "\xff\xfe", "caf\xc3\xa9", "*", "?", "|pipe", "$(x)", "`x`", "~", "^", "@{", "-dash", "--include", "..x", "x..", "a\\", "{}", "<>", "&", ";", "#", "%s", "%d", "\xe2\x88\x9e", ".gitmodules", "x]", "(p)", "^{tree}", "~1"}
 
 func (g G) entryName(style int, long bool) string {
+	if long && g.Chance(1, 60, "giantname") {
+		// legal in a tree object, far beyond any buffer: the path that
+		// `git rev-list --objects` prints for it exceeds 64 KiB
+		return strings.Repeat("G", g.PickInt([]int{65494, 65495, 65496, 70000, 140000}, "giantlen"))
+	}
 	if long && g.Chance(1, 12, "longname") {
 		n := g.Int(100, 400, "longlen")
 		return strings.Repeat(g.PickStr([]string{"x", "y", "é", " "}, "longch"), n)[:n]
